@@ -387,10 +387,12 @@ def swap_items(self, classes):
     """
 
     new_values = self._values_
-    len_shape = new_values.ndim
 
-    for r in range(self._nrank_):
-        new_values = np.rollaxis(new_values, -self._drank_-1, len_shape)
+    # Roll each numerator axis, first one first, to the end of the array
+    if self._nrank_ and self._drank_:
+        k1 = len(self._shape_)
+        for r in range(self._nrank_):
+            new_values = np.rollaxis(new_values, k1, new_values.ndim)
 
     obj = Qube(new_values, self._mask_,
                nrank=self._drank_, drank=self._nrank_, example=self)
